@@ -320,7 +320,7 @@ def replay(payload: dict) -> dict:
 
 # ---- the check ---------------------------------------------------------------------------------
 
-TIERS = {"quick": {"inputs": 320, "wall_cap": 80.0}, "thorough": {"inputs": 2600, "wall_cap": 1500.0}}
+TIERS = {"quick": {"inputs": 230, "wall_cap": 80.0}, "thorough": {"inputs": 2600, "wall_cap": 1500.0}}
 
 
 def _warm():
